@@ -195,7 +195,7 @@ func scanAll(fn func(cb sdb.RecordCB) error) ([][]interface{}, error) {
 }
 
 func runC13(r *ev.Run) {
-	r.Rule = "every index b-tree shape within bounds (T1 indexes with DESC/NOCASE/RTRIM columns, T2 WITHOUT ROWID table and its secondary index; entries in interior pages, duplicates across pages, spilled payloads) x every cut key {every prefix of every entry, last column replaced by neighbours (+-1, next float, case swap, trailing space, shorter/longer), below first, above last, one column longer than the records}: ScanMin = suffix, ScanEq = equal run, ScanRange over every ordered pair of cut keys = filtered slice of the same handle's full Scan, judged by the independent comparator; non-trivial = keys on multi-level trees"
+	r.Rule = "every index b-tree shape within bounds (T1 indexes with DESC/NOCASE/RTRIM columns, T2 WITHOUT ROWID table and its secondary index; entries in interior pages, duplicates across pages, spilled payloads) x every cut key {every prefix of every entry, last column replaced by neighbours (+-1, next float, case swap, trailing space, shorter/longer), below first, above last, one column longer than the records}: ScanMin = suffix, ScanEq = equal run, ScanRange over every ordered pair of cut keys = filtered slice of the same handle's full Scan, judged by the independent comparator; plus, on a second handle, keyed scans first and the full scan last (the page cache after a keyed scan); non-trivial = keys on multi-level trees"
 	r.Set("bounds", fmt.Sprintf("%+v", allBounds(r)))
 	for _, b := range allBounds(r) {
 		forIndexShapes(r, b, func(si *ShapeImage) { c13Image(r, si) })
@@ -244,6 +244,30 @@ func c13Image(r *ev.Run, si *ShapeImage) {
 			r.Outcome(fmt.Sprintf("%s depth=%d", u.name, si.Img.Depth[u.name]))
 			if si.Img.Depth[u.name] == 3 {
 				r.Sample(map[string]interface{}{"image": si.Desc, "index": u.name, "cut_keys": len(keys), "example_key": RowS(keys[len(keys)/2])})
+			}
+			// a second handle on which the keyed scans come FIRST (nothing has walked the pages yet) and the full
+			// scan last: what a keyed scan leaves in the page cache must not change what a later scan returns
+			if _, d2, _, err := vpager.OpenImage(si.Img.Bytes); err == nil {
+				func() {
+					if d2.RLock() != nil {
+						return
+					}
+					defer d2.RUnlock()
+					in2, err := openIndex(d2, &u)
+					if err != nil {
+						return
+					}
+					for ki := len(keys) - 1; ki >= 0; ki -= 1 + len(keys)/12 {
+						dk := toDbKey(keys[ki], u.cols)
+						scanAll(func(cb sdb.RecordCB) error { return in2.ScanMin(dk, cb) })
+						scanAll(func(cb sdb.RecordCB) error { return in2.ScanEq(dk, cb) })
+					}
+					again, err := scanAll(in2.Scan)
+					r.Trans(1)
+					if err != nil || !RowsEq(again, u.logic, false) {
+						r.Violation("C13:scan-after-keyed-scans:"+diffClass(again, u.logic), fmt.Sprintf("Index.Scan(%s) on a handle that did keyed scans first: err=%v got %v, stored entries %v", u.name, err, clip(RowsS(again)), clip(RowsS(u.logic))), map[string]interface{}{"image": si.Desc, "index": u.name})
+					}
+				}()
 			}
 			for ki := 0; ki < 2*len(keys); ki++ {
 				key := keys[ki%len(keys)]
